@@ -257,7 +257,10 @@ def _composite(rng, k, m, n, depth, o):
         return {"k": "Product", "via": via, "args": args}
     if k == "Sum":
         nf = int(rng.integers(2, 4))
-        return {"k": "Sum", "via": via, "args": [gen_tree(rng, d, o, (m, n)) for _ in range(nf)]}
+        args = [gen_tree(rng, d, o, (m, n)) for _ in range(nf)]
+        if rng.random() < 0.15:  # the same operator object twice (A + B + A)
+            return {"k": "Sum", "via": via, "share": True, "args": args + [args[0]]}
+        return {"k": "Sum", "via": via, "args": args}
     if k == "Kronecker":
         if m * n == 1:
             return None
